@@ -212,7 +212,7 @@ type fragEnv struct {
 	video   string // "avc" | "hevc" | ""
 }
 
-var trafExtras = []string{"sbgp", "sgpd", "subs", "saiz", "saio", "senc", "tfrf", "tfxd"}
+var trafExtras = []string{"sbgp", "sgpd", "subs", "saiz", "saio", "senc", "tfrf", "tfxd", "uuidre"}
 
 func genFrag(t *rapid.T, env fragEnv) fragR {
 	fr := fragR{Ctor: rapid.SampledFrom([]string{"single", "single", "single", "multi", "multi", "manual"}).Draw(t, "ctor"),
@@ -268,7 +268,7 @@ func genFrag(t *rapid.T, env fragEnv) fragR {
 		if encrypt {
 			// EncryptFragment adds saiz, saio and senc itself and DecryptFragment reads them back through the traf's
 			// pointers: further boxes of the protection machinery would replace those pointers
-			kinds = []string{"subs", "tfrf", "tfxd"}
+			kinds = []string{"subs", "tfrf", "tfxd", "uuidre"}
 		}
 		for range fr.Tracks {
 			fr.TrafKids = append(fr.TrafKids, genSome(t, "trafKid", 1, 3, kinds...))
